@@ -92,9 +92,22 @@ def cases_for(tier):
     return out
 
 
+# builds without configuration file: format, chain and default output are compiled in (variables of native/seam.c, set per process)
+FMT_ALL_CI = b'%{filename}|%{cmdline}|%{env_all}|%{uid}|%{tty}|%{cwd}|%{login}|%{env:A}'
+COMPILED_IN = {
+    'compiled_in:devlog': [],
+    'compiled_in:file': ['defformat ' + H.hx(FMT_ALL_CI), 'defoutput ' + H.hx(b'file'), 'defoutarg h@W@' + H.hx(b'/log')[1:]],
+    'compiled_in:stdout+dropchain': ['defoutput ' + H.hx(b'stdout'), 'defchain ' + H.hx(b'only_uid:12345')],
+    'compiled_in:socket+passchain': ['defoutput ' + H.hx(b'socket'), 'defoutarg h@W@' + H.hx(b'/sock')[1:], 'defchain ' + H.hx(b'only_root;exclude_uid:5')],
+    'compiled_in:unknown_output': ['defoutput ' + H.hx(b'nosuchoutput'), 'defoutarg ' + H.hx(b'arg')],
+    'compiled_in:empty_everything': ['defformat h', 'defoutput h', 'defchain h', 'defident h'],
+    'compiled_in:raising_format': ['defformat ' + H.hx(b'%{nosuch}%{failure}%{'), 'defoutput ' + H.hx(b'stderr')],
+}
+
 # caller states the wrapper must be transparent in (each is a prelude of harness commands)
 STATES = {
     'plain': [],
+    'nots': [],        # plain caller state, non-thread-safe build
     'errno34': ['errno 34'],
     'stdin_closed': ['stdin closed'],
     'stdin_pty': ['stdin pty'],
@@ -106,8 +119,11 @@ STATES = {
 def run_config(args):
     h, cname, cbytes_fn, cases, idx, root, sname = args
     w = os.path.join(root, 'w%d' % idx)
-    cb = cbytes_fn(w)[cname]
-    lines = ['sinks pipe', 'cfgnone' if cb is None else 'cfg ' + H.hx(cb)] + STATES[sname]
+    if cname.startswith('compiled_in:'):
+        lines = ['sinks pipe'] + [c.replace('@W@', H.hx(w.encode())[1:]) for c in COMPILED_IN[cname]] + STATES[sname]
+    else:
+        cb = cbytes_fn(w)[cname]
+        lines = ['sinks pipe', 'cfgnone' if cb is None else 'cfg ' + H.hx(cb)] + STATES[sname]
     cur_env = None
     for label, prelude, cl in cases:
         if prelude and prelude != cur_env:
@@ -157,10 +173,17 @@ def run(ck):
     # one outcome in quick
     reduced = [c for c in cases if (c[0][4], c[0][5]) == (-1, 2) and c[0][1] in ('abs', 'bytes255')]
     jobs = []
-    for sname in STATES:
+    for sname in [x for x in STATES if x != 'nots']:
         cs = cases if (sname == 'plain' or ck.tier == 'thorough') else reduced
         for c in cfgnames:
             jobs.append((v['h_exec'], c, configs, cs, len(jobs), ck.workdir, sname))
+    # the non-thread-safe build (--disable-thread-safety): every configuration, shape product with one outcome (thorough: full product)
+    vn = H.build_exec_harness('c01-nots-asan', ts=False)
+    for c in cfgnames:
+        jobs.append((vn['h_exec'], c, configs, cases if ck.tier == 'thorough' else reduced, len(jobs), ck.workdir, 'nots'))
+    vci = H.build_exec_harness('c01ci-ts-asan', compiled_in=True)
+    for cn in COMPILED_IN:
+        jobs.append((vci['h_exec'], cn, configs, cases if ck.tier == 'thorough' else reduced, len(jobs), ck.workdir, 'plain'))
     results = pmap(run_config, jobs)
     evals = 0
     outcomes_seen = set()
